@@ -42,9 +42,6 @@ func (m *Map) LoadOrStore(key, value any) (actual any, loaded bool) {
 
 // Delete deletes the value for a key.
 func (m *Map) Delete(key any) {
-	if m.m == nil {
-		return
-	}
 	delete(m.m, key)
 }
 
